@@ -10,6 +10,7 @@ import Pandora.Model.C08Scan
 import Pandora.Model.C08Fault
 import Pandora.Model.C08Pick
 import Pandora.Model.C08Size
+import Pandora.Spec.C08
 
 namespace Pandora.Bridge.ProvLoops
 open Pandora.Model.C08 Pandora.Gen.ProvLoops
@@ -415,5 +416,13 @@ theorem grpcScanMax_eq (mas passNum : Nat) : lineMax .grpcJson mas passNum = som
 /-- uri: the scanner newURIDecoder builds and the one `Scan` builds after every seek have no limit below math.MaxInt -/
 theorem uriScanMax_eq (mas passNum : Nat) : lineMax .uri mas passNum = some (uriScanMax passNum) := by
   by_cases h : passNum ≤ 1 <;> simp [lineMax, uriScanMax, maxInt, h]
+
+/-! ## option defaults (round 6) -/
+
+/-- a generic JSON provider whose config mentions neither `limit` nor `passes` gets 0 / 0 — the unbounded cell of the theorems
+(`Spec.C08.expected 0 0 n = none`) —, and the registered `type: json` factory starts from exactly that default -/
+theorem decodeDefaults_eq : decodeDefaultBounds = (0, 0) ∧ decodeDefaultEmbedded = true ∧
+    ∀ n, Spec.C08.expected decodeDefaultBounds.1 decodeDefaultBounds.2 n = none := by
+  refine ⟨rfl, rfl, fun n => rfl⟩
 
 end Pandora.Bridge.ProvLoops
